@@ -260,6 +260,7 @@ def replay_findings(ctx):
 
 def run_unit(ctx: C.Ctx) -> dict:
     st = S.Stats()
+    n_fail0 = len(ctx.failures)
     stream_cases = generate(ctx)
     cases = [c for _, c in stream_cases]
     for s, _ in stream_cases:
@@ -280,6 +281,8 @@ def run_unit(ctx: C.Ctx) -> dict:
         n_spec += len(r["steps"])
         oracle(ctx, st, case, r, safety_only=True)
     replay_findings(ctx)
+    # report the shortest failing history of each class first (ctx.finish keeps the first per key)
+    ctx.failures[n_fail0:] = sorted(ctx.failures[n_fail0:], key=lambda f: len(f["case"]["calls"]))
 
     samples = [S.show_case(cases[i]) for i in (0, len(cases) // 3, len(cases) // 2, len(cases) - 1)]
     dist = S.distribution(st)
